@@ -1,8 +1,14 @@
 package stdlib
 
 import (
+	"math"
 	"rare/pkg/expressions"
 )
+
+// maxOutputLen is the largest count, width or precision a helper tries to
+// honour. More could not be held in memory anyway: the runtime panics on the
+// allocation (or the process dies of it)
+const maxOutputLen = math.MaxInt32
 
 // Checks if word starts with s
 func isPartialString(s, word string) bool {
